@@ -19,10 +19,14 @@ open Ferrous Ferrous.Stream Ferrous.Stream.Code
 
 /-- Every accepted XADD (auto or explicit) returns an ID greater than every ID ever added to the
     stream before it, whatever XDEL / XTRIM happened in between and whatever the clock did
-    (`added` is the ghost list of all accepted XADDs in order; `Sorted` = strictly increasing IDs).
-    Full statement: holds for the generator that carries into the millisecond / refuses at the top. -/
-theorem ids_strictly_increase (ops : List Op) : Sorted (run fixed ops).added :=
-  (run_inv fixed ops (Or.inl rfl)).incr
+    (`added` is the ghost list of all accepted XADDs in order; `Sorted` = strictly increasing IDs;
+    the `addAuto` step is `StorageEngine::xadd`: the engine's pre-check, then `add_auto`).
+    Full statement, no exclusion: holds for every tree whose generator carries into the next
+    millisecond and whose engine refuses `*` at the top of the ID space (`seqCarry`) — with the
+    repair applied that is /repo's tree, as lib/c15.py reads off stream.rs on every run. -/
+theorem ids_strictly_increase (q : Quirks) (hq : q.seqCarry = true) (ops : List Op) :
+    Sorted (run q ops).added :=
+  (run_inv q ops (Or.inl hq)).incr
 
 /-- The tree as pinned: the same, for every history in which no auto ID was generated while the
     last ID had sequence number 2^64-1 and the clock had not moved past its millisecond. -/
@@ -54,16 +58,21 @@ theorem ids_increase_fails_at_seq_wrap :
   simp [Id.lt_def] at this
 
 /-- The rule the correspondence run checks on every `*` of the real code: outside the wrap situation
-    the generated ID either opens a later millisecond with sequence 0 (the clock reading, or the
-    carry of the repaired generator) or stays on the last millisecond with the next sequence number. -/
+    (pinned) and away from the top of the ID space (repaired; the engine refuses there) the generated
+    ID either opens a later millisecond with sequence 0 (the clock reading, or the carry of the
+    repaired generator) or stays on the last millisecond with the next sequence number. -/
 theorem auto_id_rule (q : Quirks) (now : Nat) (s : Code.Stream) (id : Id) (ms sq : Nat)
-    (hw : q.seqCarry = true ∨ wrapsAt now s = false)
+    (hw : (q.seqCarry = true ∧ isTopId ⟨s.atomMs, s.atomSeq⟩ = false) ∨ (q.seqCarry = false ∧ wrapsAt now s = false))
     (h : nextAuto q now s = some (id, ms, sq)) :
     (s.atomMs < id.ms ∧ id.seq = 0) ∨ (id.ms = s.atomMs ∧ id.seq = s.atomSeq + 1) := by
-  rcases nextAuto_cases q now s with ⟨h1, hn⟩ | ⟨_, _, _, _, hn⟩ | ⟨_, _, _, _, hn⟩ | ⟨h1, h2, hn⟩
+  rcases nextAuto_cases q now s with ⟨h1, hn⟩ | ⟨_, hc, h3, h4, hn⟩ | ⟨_, _, _, _, hn⟩ | ⟨h1, h2, hn⟩
   · rw [hn] at h; simp only [Option.some.injEq, Prod.mk.injEq] at h
     obtain ⟨rfl, _, _⟩ := h; left; exact ⟨h1, rfl⟩
-  · rw [hn] at h; cases h
+  · exfalso
+    rcases hw with ⟨_, ht⟩ | ⟨hf, _⟩
+    · simp only [isTopId, Bool.and_eq_false_iff, decide_eq_false_iff_not] at ht
+      rcases ht with ht | ht <;> omega
+    · rw [hf] at hc; cases hc
   · rw [hn] at h; simp only [Option.some.injEq, Prod.mk.injEq] at h
     obtain ⟨rfl, _, _⟩ := h; left; exact ⟨by simp, rfl⟩
   · rw [hn] at h; simp only [Option.some.injEq, Prod.mk.injEq] at h
@@ -71,24 +80,48 @@ theorem auto_id_rule (q : Quirks) (now : Nat) (s : Code.Stream) (id : Id) (ms sq
     right
     have hsmall : s.atomSeq + 1 < u64Mod := by
       rcases h2 with h2 | h2
-      · rcases hw with hw | hw
-        · rw [hw] at h2; cases h2
+      · rcases hw with ⟨hc, _⟩ | ⟨_, hw⟩
+        · rw [hc] at h2; cases h2
         · simp only [wrapsAt, Bool.and_eq_false_iff, decide_eq_false_iff_not] at hw
           rcases hw with hw | hw <;> omega
       · exact h2
     exact ⟨rfl, Nat.mod_eq_of_lt hsmall⟩
 
-/-- With the carry, `*` is refused only when the last ID has no successor among u64 pairs. -/
-theorem auto_refused_only_without_successor (ops : List Op) (now : Nat) (f : Fields)
-    (h : (addAuto fixed now f (run fixed ops).st).2 = none) :
-    Spec.succId (run fixed ops).st.lastId = none := by
-  have hi := run_inv fixed ops (Or.inl rfl)
-  unfold addAuto at h
-  rcases nextAuto_cases fixed now (run fixed ops).st with ⟨_, hn⟩ | ⟨_, _, h3, h4, hn⟩ | ⟨_, _, _, _, hn⟩ | ⟨_, _, hn⟩
-  · rw [hn] at h; cases h
-  · rw [hi.last]; unfold Spec.succId; simp only; rw [if_neg (by omega), if_neg (by omega)]
-  · rw [hn] at h; cases h
-  · rw [hn] at h; cases h
+/-- With the repair, `XADD *` is refused exactly when the last ID has no successor among u64 pairs
+    ("or is refused when no greater ID exists"), and a refusal changes nothing. -/
+theorem auto_refused_iff_no_successor (q : Quirks) (hq : q.seqCarry = true) (ops : List Op) (now : Nat) (f : Fields) :
+    ((xaddAuto q now f (run q ops).st).2 = none ↔ Spec.succId (run q ops).st.lastId = none) ∧
+    ((xaddAuto q now f (run q ops).st).2 = none → (xaddAuto q now f (run q ops).st).1 = (run q ops).st) := by
+  have hi := run_inv q ops (Or.inl hq)
+  have htop : isTopId (run q ops).st.lastId = true ↔ Spec.succId (run q ops).st.lastId = none := by
+    unfold Spec.succId isTopId
+    simp only [Bool.and_eq_true, decide_eq_true_eq]
+    constructor
+    · intro ⟨h1, h2⟩; rw [if_neg (by omega), if_neg (by omega)]
+    · intro h
+      split at h
+      · cases h
+      · split at h
+        · cases h
+        · omega
+  rcases xaddAuto_cases q now f (run q ops).st with ⟨_, ht, he⟩ | ⟨hnt, he⟩
+  · rw [he]; exact ⟨⟨fun _ => htop.1 ht, fun _ => rfl⟩, fun _ => rfl⟩
+  · have hnt' : ¬ isTopId (run q ops).st.lastId = true := fun h => hnt ⟨hq, h⟩
+    have hsome : (addAuto q now f (run q ops).st).2 ≠ none := by
+      unfold addAuto
+      rcases nextAuto_cases q now (run q ops).st with ⟨_, hn⟩ | ⟨_, _, _, _, hn⟩ | ⟨_, _, _, _, hn⟩ | ⟨_, _, hn⟩ <;>
+        rw [hn] <;> simp
+    rw [he]
+    exact ⟨⟨fun h => absurd h hsome, fun h => absurd (htop.2 h) hnt'⟩, fun h => absurd h hsome⟩
+
+/-- `isTopId` is the comparison `last_id == StreamId::max()` of the code, for u64 halves. -/
+theorem isTop_iff_eq_max (a : Id) (h1 : a.ms < u64Mod) (h2 : a.seq < u64Mod) :
+    isTopId a = true ↔ a = Id.top := by
+  rw [Stream.Id.eq_def]
+  have e : isTopId a = true ↔ (a.ms + 1 ≥ u64Mod ∧ a.seq + 1 ≥ u64Mod) := by simp [isTopId]
+  rw [e]
+  simp only [Id.top, u64Max, u64Mod] at *
+  omega
 
 /-! ### (2) explicit IDs -/
 
